@@ -255,6 +255,8 @@ func TestEventsThroughPipeline(t *testing.T) {
 		for _, b := range p.backends {
 			if rapid.IntRange(0, 3).Draw(t, "backend-send-errors") == 0 {
 				b.SendErr = fmt.Errorf("backend refuses the event")
+			} else if rapid.Bool().Draw(t, "backend-takes-a-moment") {
+				b.EventDelay = time.Duration(rapid.IntRange(1, 3).Draw(t, "send-ms")) * time.Millisecond // and honours its context meanwhile
 			}
 		}
 		srv, err := web.NewHttpServer(logrus.StandardLogger(), p.top, "verif", "127.0.0.1:0", false, false, true, false, nil, nil)
